@@ -11,4 +11,6 @@ PROPERTY StatsCadence
 PROPERTY RootsCadence
 PROPERTY UsesFresh
 PROPERTY Warmup
+PROPERTY EkfacEveryStep
+PROPERTY EkfacOnlyThen
 CHECK_DEADLOCK FALSE
